@@ -23,7 +23,7 @@ SPEC = {
     "assumptions": ["a fresh interpreter with an empty history and PYTHONHASHSEED=0 defines 'the' TEAL of a probe"],
     "min_evaluations": {"quick": 1500, "thorough": 15000},
     "must_reach": ["probe_equal", "sessions_with_failure", "crashpoints_fired", "hashseed_nonzero_sessions", "repeat_compile_equal", "router_repeat_equal"],
-    "shard_timeout": {"quick": 900, "thorough": 7200},
+    "shard_timeout": {"quick": 2400, "thorough": 14400},
 }
 
 KINDS = ["compile_ok", "compile_version_too_low", "body_raises", "abi_body_raises", "uninit", "type_error", "router_ok", "router_fails", "mutual",
